@@ -88,12 +88,12 @@ class IPv4NetworkField(StringField):
         except ValueError as err:
             raise ValueError("value is not a valid IPv4 Network (CIDR)") from err
 
-        if self.min_prefix_len and net.prefixlen < self.min_prefix_len:
+        if self.min_prefix_len is not None and net.prefixlen < self.min_prefix_len:
             raise ValueError(
                 "value must be at least a /%d subnet" % self.min_prefix_len
             )
 
-        if self.max_prefix_len and net.prefixlen > self.max_prefix_len:
+        if self.max_prefix_len is not None and net.prefixlen > self.max_prefix_len:
             raise ValueError(
                 "value must be smaller than a /%d subnet" % self.max_prefix_len
             )
